@@ -191,8 +191,8 @@ class Importer:
             >>> importer.import_string(content)
             >>> document = importer.import_string(content)
         """
-        lines = text.splitlines()
-        reader = csv.reader(lines, delimiter='\t', quoting=csv.QUOTE_NONE)
+        # newline='' lets csv split the records exactly as import_file does (str.splitlines also splits on \x0b, \x85, ...)
+        reader = csv.reader(io.StringIO(text, newline=''), delimiter='\t', quoting=csv.QUOTE_NONE)
         return self.run(reader)
 
     def get_error_messages(self) -> str:
